@@ -411,7 +411,11 @@ def write_back(tree, related_classes, sites, only=None, keep=(), methods=()):
                         continue
                     e = st.value
                     if ("value " + ast.unparse(e)) in keep:
-                        continue
+                        # the confirmed unit keeps such a value in a local too: this is that local - unless the local
+                        # is itself copied into another one (``den = denpoly``), which then plays that part
+                        if not any(isinstance(n, ast.Assign) and isinstance(n.value, ast.Name) and n.value.id == v
+                                   and len(n.targets) == 1 and isinstance(n.targets[0], ast.Name) for n in ast.walk(fn)):
+                            continue
                     if isinstance(e, (ast.Constant, ast.Name)) and not (isinstance(e, ast.Constant) and isinstance(e.value, (str, int, float))):
                         continue            # plain copies of names are the business of the equivalence engine
                     locals_used, numeric = set(), [True]
